@@ -32,14 +32,17 @@ def run(chk):
     thorough = chk.tier == 'thorough'
     chk.bounds.update({'E-UNI': 'instances U2, C2, M2 (thorough: U3 shallow): result(state, colour) == explicit semantics on the transition system of that colour, for every colour; then up to 6 (thorough 20) structurally distinct colours per formula are instantiated and model_check_formula is run natively on the fully specified network',
                        'E-MIR': 'colour non-interference of the kernels with one colour bit, n = 2 (thorough: n = 3 for the loop-free kernels; the n = 3 loop kernels took > 30 min and are not run)', 'outside': 'benchmark models with thousands of colours'})
-    non_interference(chk, 2)
-    if thorough: non_interference(chk, 3, loops=False)
+    from ..run import guard
+    guard(chk, 'C20/E-MIR colour non-interference n=2', non_interference, chk, 2)
+    if thorough: guard(chk, 'C20/E-MIR colour non-interference n=3', non_interference, chk, 3, loops=False)
     core = G.core_plain(['v0', 'v1'])
     rnd = [G.random_formula(chk.rng, 3, ['v0', 'v1']) for _ in range(60 if thorough else 10)]
     # extended formulas with colour-dependent context sets (d is empty for some colours only, e for the others)
     X = ('var', 'x'); W = ('wild', 'w')
     ext = [('forall', 'x', 'd', ('jump', 'x', ('AX', X))), ('exists', 'x', 'd', ('EF', X)), ('bind', 'x', 'd', ('EX', ('or', X, W))), ('forall', 'x', 'e', ('or', ('EF', X), W)),
            ('and', ('forall', 'x', 'd', ('EX', X)), ('not', ('exists', 'x', 'e', ('AX', X)))), ('EU', W, ('forall', 'x', 'd', ('jump', 'x', P0)))]
+    # operands that partition the state space along one variable (no transition of that variable ends inside the left operand)
+    ext += [(b, ('not', P0), P0) for b in ('EU', 'AU', 'EW', 'AW')] + [('EU', P1, ('not', P1)), ('bind', 'x', None, ('EX', ('EU', ('not', X), X))), ('EF', ('and', P0, P1)), ('AG', ('or', ('not', P0), P1))]
     forms = ext + core[::1 if thorough else 2] + rnd
     ncol = 20 if thorough else 5
     for inst in UC.instances(['U2', 'C2', 'M2', 'I3', 'F2'] + (['U3'] if thorough else [])):
@@ -60,9 +63,14 @@ def run(chk):
                 colours = []; block = []
                 R = dec.bdd(b)
                 pvars = [sess.dec.X[i_] for i_ in sess.dec.params]
-                for _ in range(ncol):
-                    v = uni.decide([sess.dec.unit] + block, 20000)
-                    if v.status != 'sat': break
+                # extreme colours first (one update function constant: that variable moves one way only, so emptiness
+                # shortcuts taken over ALL colours behave differently once the other colours are gone), then free ones
+                shapes = [[sess.K.trans(i_, s) == z3.BoolVal(((s >> i_) & 1) != bv) for s in range(1 << sess.dec.n)] for i_ in range(sess.dec.n) for bv in (1, 0)]
+                for sh in shapes + [[]] * ncol:
+                    v = uni.decide([sess.dec.unit] + block + sh, 20000)
+                    if v.status != 'sat':
+                        if sh: continue
+                        break
                     col = {sess.dec.names[i_]: bool(z3.is_true(v.model.eval(sess.dec.X[i_], model_completion=True))) for i_ in sess.dec.params}
                     T, sets, ok = UC.concrete_of_colour(sess, col)
                     # structurally distinct: block this transition relation
